@@ -169,6 +169,16 @@ CHECKS = {
             rapid("console", "^TestC16Console$", 150000, 16, timeout=3000),
         ],
     },
+    "C18": {
+        "quick": [
+            plain("regress", "^(TestRegressC18|TestC18Levels)$"),
+            rapid("slog", "^TestC18Slog$", 6000, 4),
+        ],
+        "thorough": [
+            plain("regress", "^(TestRegressC18|TestC18Levels)$"),
+            rapid("slog", "^TestC18Slog$", 120000, 16, timeout=3000),
+        ],
+    },
     "C17": {
         "quick": [
             plain("regress", "^TestRegressC17"),
@@ -189,6 +199,7 @@ CHECKS = {
 LEVELS = {"C10": "fault_enumeration"}
 
 RULES = {
+    "C18": "cases = a tree of handlers built by 0-6 random WithGroup (names incl. '' and duplicates) / WithAttrs derivations from random parents, then records (slog levels -8..12 incl. the gaps, hostile messages) with 0-3 attributes logged through every handler twice in drawn orders; attributes are trees of every slog Kind (string, int64, uint64, bool, duration, float64, time, Any of error/stringer/slice/map/nil/struct/bytes), named groups, inline groups, literally empty groups, empty attrs and LogValuers resolving to any of those; core threshold -1..3. Oracle = reference model of the slog.Handler contract (ordered tree), plus key-nesting differential against slog.NewJSONHandler when every attribute is solid; Enabled/handled iff the core enables the mapped level; level mapping swept over -200..200. Non-trivial = deferred group opening (WithGroup then WithAttrs starting with an empty attr), or an empty group/attr via WithAttrs or via a LogValuer. Distinct = distinct (derivation sequence shape, threshold, class flags).",
     "C15": "cases = generated call paths executed for real: a logger prepared by 0-6 Sugar/Desugar/With/WithLazy/Named/WithOptions steps, AddCallerSkip(k) with k in 0..4 below exactly k non-inlined wrapper frames, below a recursion of depth {0,1,10,50,63,64,65,200,1000}, through every front end (Logger level methods, Log, Check+Write, all 33 Sugar methods, NewStdLog/NewStdLogAt Print/Printf/Println/Output, RedirectStdLog+log.Print, globals L/S, slog.Logger methods over the zapslog handler), stack-trace enabler = arbitrary level subset or threshold; plus a deterministic sweep of every front end x skip 0..2 x depth {0,100}. Oracle = the site captured on the same source line with an independent runtime.Callers walk. Non-trivial = (a Sugar/Desugar conversion and skip >= 1) or (depth >= 64 with the stack enabled). Distinct = distinct (front end, skip, depth, conversions, stack on/off, conversion chain).",
     "C14": "cases = argument lists of length 0-9 mixing typed zap.Fields (from Spec trees), string keys (incl. empty, duplicate, 'error', 'ignored'), non-string keys (int, custom string type, slice, bool, float, struct, []byte, pointer), bare errors (plain, verbose, group, nil-pointer, panicking), nil and arbitrary values of every dynamic type zap.Any special-cases, in every order, through Debugw..Fatalw, Logw, With, WithLazy and With followed by a *w call, on enabled and fully disabled loggers; templates from a grammar of % verbs with 0-5 arguments through print-, printf-, println-style and Log/Logf/Logln at every level. Oracle = independent reference sweep from the With documentation (fields compared by key/type/recorded calls; every diagnostic must be matched by an Error-level entry identifying the item) and fmt.Sprint/Sprintf/Sprintln. Non-trivial = a Field or error before a pair (parity shift) or any invalid item; message job: formatting with arguments. Distinct = distinct (mode, level, argument kind sequence).",
     "C11": "cases = first N and thereafter M in 0..6 plus large values, tick 1ns..10s, sequences of 1-60 entries with level in {-2,-1,0,1,2,5,6,100}, message from an alphabet with pre-computed FNV-colliding pairs, timestamps advancing by {0,1,tick-1,tick,tick+1,...}, wrapped core threshold drawn, entries through the sampler, two With-derived samplers (shared budget) and an independent sampler (own budget), decision hook recorded; a Logger path with a stepped clock; concurrent: one entry opens a window, then 2-8 goroutines x 1-200 entries of the same key inside it. Reference model from the statement using hash/fnv. Non-trivial = (entry exactly at a window end and a dropped entry and a thereafter admission) or a colliding pair sharing a budget. Distinct = distinct (N, M, tick, threshold, class flags, length class).",
@@ -215,6 +226,11 @@ ASSUMPTIONS = {
 TRUST = "Trusted base: Go toolchain/runtime, rapid's generators and shrinker, the reference model/oracle code in /verif/harness/props, and the standard-library packages used as reference implementations. Search-based: absence of a counterexample in the generated cases is not a proof."
 
 META = {
+    "C18": {
+        "technique": "model-based property testing (rapid): generated handler derivation trees and attribute trees vs a reference model of the slog.Handler contract; secondary differential against log/slog's JSONHandler",
+        "level_text": "The decoded JSON line of every record must equal the ordered tree the contract prescribes: groups nest what follows, attrs keep order and typed value, group values nest, empty-key groups inline, empty attrs and attribute-less groups vanish (also via WithAttrs and LogValuers), a WithGroup without content is not emitted, WithGroup('') is a no-op, valuers are resolved; logging through siblings/children in any order never changes a handler's output; a record is handled iff the core enables the mapped level. Exploration over unbounded derivation/attribute trees.",
+        "level_note": TRUST + " D5: a non-empty group whose members all vanish is ambiguous in the contract; generated non-empty groups always contain one solid attribute. slog.Any values are expected as zap.Any renders them (C02/C03 check that separately).",
+    },
     "C15": {
         "technique": "property-based testing (rapid) over generated call paths executed for real, compared with an independent runtime.Callers capture taken on the same source line",
         "level_text": "Every generated call path is really executed; Entry.Caller must equal file, line and function of the frame k levels above the call line and Entry.Stack must be present exactly for the configured levels and equal the complete real chain from that frame outwards (whatever its depth, minus the final runtime frame). Exploration: the space of conversion chains, skips, depths and front ends is a large product that is sampled, with a deterministic sweep of all front ends.",
